@@ -174,6 +174,145 @@ impl Leg for Python {
     }
 }
 
+// ---------------------------------------------------------------------------------------------
+// giant sequences and giant windows: whole-record windows (w = length, as `min -w 0` uses them), windows
+// whose ring of m-mers has 65536 +- a few slots, sequences beyond 2^20 bases, offsets shifted by long
+// runs of ambiguous bytes. Oracle: model::minimiser_runs_fast (cross-checked against the naive model).
+
+#[derive(Clone, Copy, Debug, Serialize, Deserialize, PartialEq)]
+pub enum WMode {
+    /// one window spanning the whole sequence
+    Whole,
+    /// w - m + 1 = 65536 + delta
+    Ring(i32),
+    /// as given (capped to the length)
+    Fixed(usize),
+    /// m + d, a small window on a giant sequence
+    Small(usize),
+}
+
+#[derive(Clone, Debug, Serialize, Deserialize)]
+pub struct GiantCase {
+    pub giant: gen::Giant,
+    pub wmode: WMode,
+    pub m: usize,
+    /// this many ambiguous bytes are put in front (all offsets shift by as much)
+    #[serde(default)]
+    pub lead_gap: usize,
+}
+
+impl GiantCase {
+    pub fn seq(&self) -> Vec<u8> {
+        let mut s = vec![b'N'; self.lead_gap];
+        s.extend(self.giant.expand());
+        s
+    }
+    pub fn w(&self, len: usize) -> usize {
+        let w = match self.wmode {
+            WMode::Whole => len,
+            WMode::Ring(d) => (65536 + d as i64 + self.m as i64 - 1) as usize,
+            WMode::Fixed(w) => w,
+            WMode::Small(d) => self.m + d,
+        };
+        w.max(self.m)
+    }
+}
+
+fn giant_case_strategy(lo: usize, hi: usize, python: bool) -> BoxedStrategy<GiantCase> {
+    let wmode = if python {
+        prop_oneof![4 => (0usize..=60).prop_map(WMode::Small), 1 => Just(WMode::Whole)].boxed()
+    } else {
+        prop_oneof![
+            2 => Just(WMode::Whole),
+            4 => (-3i32..=3).prop_map(WMode::Ring),
+            1 => prop::sample::select(vec![1usize << 16, (1 << 16) + 1, 1 << 17, 100_000]).prop_map(WMode::Fixed),
+            2 => (0usize..=60).prop_map(WMode::Small),
+        ]
+        .boxed()
+    };
+    (wmode, prop_oneof![1 => 4usize..=7, 4 => 8usize..=31])
+        .prop_flat_map(move |(wmode, m)| {
+            // a small window on a periodic text is fine; giant windows get pseudo-random text (a rescan of a
+            // 65536-slot ring on every step of a tie-rich text would take minutes)
+            let g = match wmode {
+                WMode::Small(_) => prop_oneof![1 => gen::giant(lo, hi, b"ACGTN".to_vec()), 1 => gen::giant_random(lo, hi, b"ACGTNn".to_vec())].boxed(),
+                _ => gen::giant_random(lo, hi, b"ACGTN".to_vec()).boxed(),
+            };
+            let g = if python { gen::giant(lo, hi, b"ACGTN".to_vec()).prop_filter_map("period long enough", |g| if g.unit.0.len() >= 40 { Some(g) } else { None }).boxed() } else { g };
+            (g, Just(wmode), Just(m), prop_oneof![3 => Just(0usize), 1 => 1usize..=70])
+        })
+        .prop_map(|(giant, wmode, m, lead_gap)| GiantCase { giant, wmode, m, lead_gap })
+        .boxed()
+}
+
+fn classify_giant(v: &mut Verdict, c: &GiantCase, len: usize, w: usize, want: &[(u64, usize, usize)]) {
+    v.class(c.giant.label());
+    v.class(match c.wmode { WMode::Whole => "window=whole-sequence", WMode::Ring(_) => "ring-of-65536+-3", WMode::Fixed(_) => "window>=2^16", WMode::Small(_) => "small-window-on-giant" });
+    v.class_if(len > (1 << 20), "len>2^20");
+    v.class_if(w > len, "w>len");
+    v.nontrivial = !want.is_empty();
+}
+
+pub struct GiantLib;
+impl Leg for GiantLib {
+    type Case = GiantCase;
+    const NAME: &'static str = "giant-windows";
+    fn strategy(tier: Tier) -> BoxedStrategy<GiantCase> {
+        giant_case_strategy(66_000, tier.pick(400_000, 3_000_000), false)
+    }
+    fn check(c: &GiantCase) -> Verdict {
+        let mut v = Verdict::new();
+        let seq = c.seq();
+        let w = c.w(seq.len());
+        let want = model::minimiser_runs_fast(&seq, w, c.m);
+        classify_giant(&mut v, c, seq.len(), w, &want);
+        let got: Vec<(u64, usize, usize)> = MinimiserGenerator::new(&seq, w, c.m).collect();
+        compare_big(&mut v, &got, &want, w, c.m);
+        v
+    }
+}
+
+/// like `compare`, but the message names only the first difference (the lists have thousands of runs)
+pub fn compare_big(v: &mut Verdict, got: &[(u64, usize, usize)], want: &[(u64, usize, usize)], w: usize, m: usize) {
+    if got == want {
+        return;
+    }
+    let p = got.iter().zip(want.iter()).position(|(a, b)| a != b).unwrap_or(got.len().min(want.len()));
+    let sig = if got.iter().any(|g| g.0 == u64::MAX) { "placeholder-emitted" } else if !want.is_empty() && got == &want[..want.len() - 1] { "last-run-missing" } else { "runs-differ" };
+    v.fail(sig, format!("{} runs, model {} runs; first difference at run {}: got {:?}, model {:?} (w={}, m={})", got.len(), want.len(), p, got.get(p), want.get(p), w, m));
+}
+
+/// pykmertools.MinimiserGenerator on sequences beyond 2^20 bases
+pub struct GiantPython;
+impl Leg for GiantPython {
+    type Case = GiantCase;
+    const NAME: &'static str = "giant-python";
+    fn strategy(tier: Tier) -> BoxedStrategy<GiantCase> {
+        giant_case_strategy(900_000, tier.pick(2_300_000, 4_500_000), true)
+    }
+    fn check(c: &GiantCase) -> Verdict {
+        let mut v = Verdict::new();
+        let c = &GiantCase { lead_gap: 0, ..c.clone() };
+        let seq = c.seq();
+        let w = c.w(seq.len());
+        let want = model::minimiser_runs_fast(&seq, w, c.m);
+        classify_giant(&mut v, c, seq.len(), w, &want);
+        v.class("python-giant");
+        match crate::pyworker::ask(&serde_json::json!({"op": "mins", "w": w, "m": c.m, "giant": c.giant.to_json()})).and_then(|r| super::c01::parse_tuples_u64(&r, 3)) {
+            Err(e) => crate::pyworker::record_error(&mut v, e),
+            Ok(got) => {
+                let got: Vec<(u64, usize, usize)> = got.iter().map(|t| (t[0], t[1] as usize, t[2] as usize)).collect();
+                let mut vv = Verdict::new();
+                compare_big(&mut vv, &got, &want, w, c.m);
+                if let Some(f) = vv.fail {
+                    v.fail(format!("python-{}", f.sig), format!("pykmertools.MinimiserGenerator on {} bases: {}", seq.len(), f.msg));
+                }
+            }
+        }
+        v
+    }
+}
+
 /// first calls of a fresh process made by several threads at once
 pub struct Cold;
 impl Leg for Cold {
@@ -194,6 +333,10 @@ pub fn run(ctx: &mut Ctx) {
     ctx.run_leg::<Cold>(nc, false, 40);
     super::coldstart::infra_inconclusive(ctx);
 
+    let n = ctx.share(ctx.tier.pick(64, 1_600));
+    ctx.run_leg::<GiantLib>(n, false, 12);
+    let n = ctx.share(ctx.tier.pick(24, 480));
+    ctx.run_leg::<GiantPython>(n, false, 8);
     let n = ctx.share(ctx.tier.pick(30_000, 400_000));
     ctx.run_leg::<Python>(n, false, 1000);
     let maxlen = ctx.tier.pick(8, 11);
@@ -214,6 +357,8 @@ pub fn replay(leg: &str, case: &serde_json::Value) -> Option<Result<Verdict, Str
     match leg {
         "exhaustive" | "random" => Some(crate::engine::replay_leg::<Random>(case)),
         "python" => Some(crate::engine::replay_leg::<Python>(case)),
+        "giant-windows" => Some(crate::engine::replay_leg::<GiantLib>(case)),
+        "giant-python" => Some(crate::engine::replay_leg::<GiantPython>(case)),
         "cold-start-threads" => Some(crate::engine::replay_leg::<Cold>(case)),
         _ => None,
     }
